@@ -714,6 +714,65 @@ def check_forwarding_reach(ix, rep, rule='R-FWD'):
     return n
 
 
+def unroll_attr_loops(fnode):
+    """`for name in ('a', 'b'): x = getattr(self, name, None); ... x.m ...`  ->  the body once per literal with `self.a` / `self.b` written
+    out (on a copy): the spelling with one block per attribute, which the rules read"""
+    import copy
+    fn = copy.deepcopy(fnode)
+
+    class Sub(ast.NodeTransformer):
+        def __init__(self, var, lit):
+            self.var, self.lit = var, lit
+            self.alias = {}
+
+        def visit_Call(self, n):
+            self.generic_visit(n)
+            if isinstance(n.func, ast.Name) and n.func.id == 'getattr' and len(n.args) >= 2 and isinstance(n.args[0], ast.Name) and n.args[0].id == 'self' \
+                    and isinstance(n.args[1], ast.Name) and n.args[1].id == self.var:
+                return ast.copy_location(ast.Attribute(value=ast.Name(id='self', ctx=ast.Load()), attr=self.lit, ctx=ast.Load()), n)
+            if isinstance(n.func, ast.Name) and n.func.id == 'hasattr' and len(n.args) == 2 and isinstance(n.args[1], ast.Name) and n.args[1].id == self.var:
+                n.args[1] = ast.Constant(value=self.lit)
+            return n
+
+    class Inline(ast.NodeTransformer):
+        def __init__(self, alias):
+            self.alias = alias
+
+        def visit_Name(self, n):
+            if isinstance(n.ctx, ast.Load) and n.id in self.alias:
+                return ast.copy_location(copy.deepcopy(self.alias[n.id]), n)
+            return n
+    for parent in ast.walk(fn):
+        for field in ('body', 'orelse'):
+            lst = getattr(parent, field, None)
+            if not isinstance(lst, list):
+                continue
+            out = []
+            for st in lst:
+                if isinstance(st, ast.For) and isinstance(st.target, ast.Name) and isinstance(st.iter, (ast.Tuple, ast.List)) and st.iter.elts \
+                        and all(isinstance(e, ast.Constant) and isinstance(e.value, str) for e in st.iter.elts) and not st.orelse \
+                        and any(isinstance(c, ast.Call) and isinstance(c.func, ast.Name) and c.func.id in ('getattr', 'hasattr') for c in ast.walk(st)):
+                    for e in st.iter.elts:
+                        body = [Sub(st.target.id, e.value).visit(copy.deepcopy(b)) for b in st.body]
+                        alias = {}
+                        kept = []
+                        for b in body:
+                            if isinstance(b, ast.Assign) and len(b.targets) == 1 and isinstance(b.targets[0], ast.Name) and isinstance(b.value, ast.Attribute) \
+                                    and isinstance(b.value.value, ast.Name) and b.value.value.id == 'self' and b.value.attr == e.value:
+                                alias[b.targets[0].id] = b.value
+                                continue
+                            kept.append(Inline(alias).visit(b) if alias else b)
+                        # `if isinstance(self.a, K)` keeps its meaning; a bare `if x is None: continue` would need more care: left as it is
+                        for b in kept:
+                            ast.copy_location(b, st)
+                            ast.fix_missing_locations(b)
+                        out.extend(kept)
+                else:
+                    out.append(st)
+            setattr(parent, field, out)
+    return fn
+
+
 def check_counted_getters(ix, rep, rule='R-FWD'):
     """a quantity the interpreters count themselves (assigned in a method that is neither a constructor, a setter nor reset) lives in each
     interpreter separately.  The specification's getter for it is executed here for an object that holds every interpreter (tests on the
@@ -740,7 +799,7 @@ def check_counted_getters(ix, rep, rule='R-FWD'):
         getters = [f for c in [spec] for nm, f in c.methods.items() if nm == y and not any(ast.unparse(d).endswith('.setter') for d in f.node.decorator_list)]
         for g in getters:
             rep.analysed(g)
-            cfg = flow.CFG(g.node)
+            cfg = flow.CFG(unroll_attr_loops(g.node))
             seen = set()
             stack = [cfg.entry]
             while stack:
@@ -807,9 +866,16 @@ def check_interpreter_ownership(ix, rep, rule='R-CONFIG'):
             cfg = flow.CFG(rs.node)
             dom = cfg.dominators()
 
+            # locals that stand for the interpreter (x = self.online_interpreter, bound once)
+            aliases = {'self.online_interpreter'}
+            for q in ast.walk(rs.node):
+                if isinstance(q, ast.Assign) and len(q.targets) == 1 and isinstance(q.targets[0], ast.Name) and ast.unparse(q.value) == 'self.online_interpreter' \
+                        and sum(1 for z in ast.walk(rs.node) if isinstance(z, ast.Name) and z.id == q.targets[0].id and isinstance(z.ctx, ast.Store)) == 1:
+                    aliases.add(q.targets[0].id)
+
             def forwards(st):
                 return not isinstance(st, (ast.If, ast.For, ast.While, ast.Try)) and any(
-                    isinstance(x, ast.Call) and isinstance(x.func, ast.Attribute) and x.func.attr == 'reset' and ast.unparse(x.func.value) == 'self.online_interpreter'
+                    isinstance(x, ast.Call) and isinstance(x.func, ast.Attribute) and x.func.attr == 'reset' and ast.unparse(x.func.value) in aliases
                     for x in ast.walk(st))
             bad = None
             for p in cfg.pred[cfg.exit]:
